@@ -395,9 +395,34 @@ def exp_rule(i, kind):
 
 # name, grammar, options
 GRAMMARS = [
-    # seq / sor nesting with backtracking; sym<0> occurs under two different parents (rule 101 and the sor)
+    # seq / sor / opt nesting with backtracking; sym<0> occurs under two different parents (named<1> and the opt)
     ('backtrack', 'named< 0, sor< named< 1, %s, %s >, %s >, opt< %s > >' % (S0, S1, S2, S0),
      {'reach': [R_FALSE, R_GLOBAL, R_FOREIGN2, R_TWICE]}),
+    # repetitions: star over a named rule, plus over a pack (internal::seq interposed)
+    ('star', 'named< 0, star< named< 1, %s > >, plus< %s, %s > >' % (S0, S1, S2),
+     {'reach': [R_FALSE, R_FOREIGN2, R_TWICE, ('%s >= 3' % exp_rule(2, 'C_START'), 'the starred rule was started three times')]}),
+    # predicates: hooks still run inside at<> / not_at<>; named<1> occurs inside at<> and directly under named<0>
+    ('lookahead', 'named< 0, at< named< 1, %s > >, not_at< %s >, named< 1, %s >, %s >' % (S0, S1, S0, S2),
+     {'reach': [R_FALSE, R_FOREIGN2, R_TWICE]}),
+    # must<> over a pack: internal::must< R > frames, raise counted for the sub-rule under the must frame
+    ('must', 'named< 0, %s, must< %s, named< 1, %s > > >' % (S0, S1, S2),
+     {'reach': [R_FALSE, R_GLOBAL, R_RAISE, R_FOREIGN2]}),
+    # global failure caught inside the run: frames unwound, parsing goes on with the next alternative
+    ('trycatch', 'named< 1, sor< try_catch_type_return_false< verif_exc, named< 0, %s, must< %s > > >, %s >, %s >' % (S0, S1, S2, S0),
+     {'reach': [R_FALSE, R_GLOBAL, R_RAISE, R_FOREIGN2, R_TWICE, R_CONT(2)]}),
+    # raise_nested: a foreign exception is converted inside the run, the converted one is caught further out
+    ('nested', 'named< 0, sor< try_catch_any_return_false< try_catch_type_raise_nested< foreign_exc, named< 1, %s, %s > > >, %s > >' % (S0, S1, S2),
+     {'reach': [R_FALSE, R_NESTED, R_CONT(3), R_GLOBAL]}),
+    # bool action: a veto turns the success hook into the failure hook; the action may also throw
+    ('veto', 'named< 0, sor< named< 1, %s >, %s >, %s >' % (S0, S1, S2),
+     {'action': 'bool', 'reach': [R_FALSE, R_FOREIGN2, ('e.r == 1 && sp_veto(101, sp_start) == 0 && T_res[0][sp_start] == 1', 'a rule matched, its action vetoed, the run still succeeded')]}),
+    # void action that throws, caught inside the run
+    ('throwact', 'named< 0, sor< try_catch_any_return_false< named< 1, %s > >, %s >, %s >' % (S0, S1, S2),
+     {'action': 'void', 'reach': [R_FALSE, R_FOREIGN2, R_CONT(1), ('e.r == 1 && sp_veto(101, sp_start) == 2 && T_res[0][sp_start] == 1', 'the action of a rule that matched threw, the exception was caught inside the run')]}),
+    # directly recursive named rule
+    ('recursive', 'named< 0, R, %s >' % S2,
+     {'defs': {'R': (150, 'sor< seq< sym<0>, R >, sym<1> >')}, 'maxrec': 3, 'N': 2, 'K': 3,
+      'reach': [R_FALSE, R_FOREIGN2, R_TWICE, ('%s >= 3' % exp_rule(1, 'C_START'), 'the recursive rule was nested three levels deep')]}),
 ]
 
 
@@ -415,11 +440,11 @@ def plan(ctx):
         NR = len(m.order)
         maxrec = o.get('maxrec', 3)
         cap = max(NR, m.depth(maxrec) + 1, 2)
-        unit = ctx.unit('c08cov_' + gname, text=wrap, cxxflags=['-I', stub, '-DVSTUB_CAP=%d' % cap, '-DVSTUB_TYPED'], ll2c=['--inline-gep', '--typed-memset'], real_cxxflags=[])
+        unit = ctx.unit('c08cov_' + gname, text=wrap, cxxflags=['-I', stub, '-DVSTUB_CAP=%d' % cap, '-DVSTUB_TYPED', '-mllvm', '-inline-threshold=1000000', '-mllvm', '-sink-common-insts=false'], ll2c=['--inline-gep', '--typed-memset'], real_cxxflags=[])
         h = ctx.write('h_%s.c' % gname, htext)
         us = ['cov_setup.%d:%d' % (i, max(NR * NR * 6, 13) + 1) for i in range(6)]
         us += ['cov_clear_out.%d:%d' % (i, NR * NR * 7 + 1) for i in range(3)]
-        us += ['cov_compare.%d:%d' % (i, NR + 1) for i in range(8)]
+        us += ['cov_compare.%d:%d' % (i, max(NR + 1, 8)) for i in range(5)]
         us += ['cov_total.0:%d' % (NR + 1), 'cov_twice.0:%d' % (NR + 1)]
         try:
             b = vf.build_unit(ctx, unit)
@@ -435,8 +460,10 @@ def plan(ctx):
                     us.append('%s:%d' % (f, maxrec + 1))
         except vf.Inconclusive:
             pass          # reported by the query itself
+        unwind = max(N + 3, cap + 2, NR + 2, 8)
+        ctx.write('us_%s.txt' % gname, '%d\n%s\n' % (unwind, ','.join(us)))      # for manual runs (VERIF_KEEP=1)
         for mode in ('cov', 'stk'):
-            qs.append(vf.Query('%s/%s' % (gname, mode), unit, h, unwind=max(N + 3, cap + 2, NR + 2, 8), mem_gb=o.get('mem_gb', 4), unwindset=us,
+            qs.append(vf.Query('%s/%s' % (gname, mode), unit, h, unwind=unwind, mem_gb=o.get('mem_gb', 4), unwindset=us,
                                cbmc_defines={'VF_SPLIT': 1, 'V_' + mode: 1},
                                bounds={'N': N, 'K': o.get('K', 3), 'grammar': gtext, 'rule_types': NR, 'container_capacity': cap,
                                        'action': {'bool': 'vf::act_bool (veto / throw)', 'void': 'vf::act_void (throw)'}.get(o.get('action'), 'nothing'),
